@@ -189,6 +189,8 @@ func c15Dump(vs parser.Scope) string {
 		v, _, _ := vs.GetValue(k)
 		sb.WriteString(k + "=" + c15Canon(v) + ";")
 	}
+	// the whole scope tree (child scopes, their names and values) as the scope prints itself
+	sb.WriteString(" tree=" + strconv.Quote(vs.String()))
 	return sb.String()
 }
 
@@ -1138,6 +1140,13 @@ func init() {
 	register("C15", &Prop{
 		Timeout:          90 * time.Second,
 		NoRestartOnPanic: true,
+		Tool: func(args []string) int {
+			if len(args) == 2 && args[0] == "extract" {
+				return c15Extract(args[1])
+			}
+			fmt.Fprintln(os.Stderr, "usage: harness C15 -tool extract <out.lean|->")
+			return 2
+		},
 		Setup: func() {
 			if c15HooksPresent() {
 				CountRun("hooks.present")
@@ -1149,6 +1158,10 @@ func init() {
 			nProg := 120
 			if g.Thorough() {
 				nProg = 2500
+			}
+			if os.Getenv("C15_AMPLIFY") != "" {
+				// the read-only fact could not be established: search harder for a difference
+				nProg *= 4
 			}
 			emitD := func(src string, r *Rand, directedWindow bool) {
 				_, _, trace := c15Plain(src)
